@@ -36,6 +36,7 @@ try:
             rc, out = sh(cmd, cwd=d)
             shutil.rmtree(d)
             return rc, out, cmd + "   (standalone module, replace => worktree)"
+        os.makedirs(os.path.join(WT, where), exist_ok=True)
         dst = os.path.join(WT, where, "zz_seeded_demo_test.go")
         shutil.copy(demo, dst)
         names = re.findall(r"^func (Test\w+)\(", open(demo).read(), re.M)
